@@ -1,82 +1,9 @@
-/* C16: one send operation (Session::send pointer/reference overload or send_batch of j <= J messages) from an arbitrary
-   pre-state (_next_send_seq = n, _next_receive_seq = r) with the control record satisfying the invariant (or stale:
-   -DSTALE_CTRL).  Inductive step of: new messages are numbered consecutively, the control record equals the session's
-   numbers after each send. */
-#include "sessb_world.h"
-#ifndef J
-#define J 3
-#endif
-#ifndef OP
-#define OP 0               /* compile-time: 0 send(Message*), 1 send(Message&), 2 send_batch */
-#endif
-uint32_t cx_n, cx_r, cx_custom, cx_orig[J]; uint8_t cx_op, cx_j, cx_kind[J], cx_pre34[J], cx_pre43[J], cx_noinc, cx_destroy, cx_always, cx_persist, cx_stale;
-uint8_t cx_elen[J], cx_enc[J][ENC_MAX];
+/* C16: inductive step of "new messages are numbered consecutively and the control record equals the session's numbers
+   after each send" over the scenario of sessb_send.h */
+#include "sessb_send.h"
 int main(void)
 {
-#ifdef NOPERSIST             /* persister presence is a compile-time variant: a symbolic Persister* defeats devirtualisation */
-  uint8_t with_persist = 0;
-#else
-  uint8_t with_persist = 1;
-#endif
-  uint8_t always = nondet_u8() & 1;
-#ifdef NO_ALWAYS
-  always = 0;
-#endif
-  world_init(with_persist, 0);
-  uint32_t n = nondet_u32(), r = nondet_u32();
-  VF_ASSUME(n >= 1 && n <= 0xfffffff0u && r >= 1 && r <= 0xfffffff0u);
-  vf_sess_set_seq(SESS, n, r); vf_sess_set_flags(SESS, 1, 0, 0, always, 0); vf_sess_set_state(SESS, 1 /* st_continuous */);
-  /* control record before the operation: equal to the session's numbers (invariant), or arbitrary */
-  c_valid = 1; c_snd = n; c_rcv = r;
-#ifdef STALE_CTRL
-  c_valid = nondet_u8() & 1; c_snd = nondet_u32(); c_rcv = nondet_u32(); cx_stale = 1;
-#endif
-  const uint8_t op = OP;
-#if OP != 2
-  const uint8_t j = 1;
-#elif defined(JFIX)          /* batch size as a compile-time case split */
-  const uint8_t j = JFIX;
-#else
-  uint8_t j = nondet_u8(); VF_ASSUME(j <= J);
-#endif
-  uint32_t custom = 0; uint8_t noinc = 0, destroy = nondet_u8() & 1;
-  if (op < 2) { custom = nondet_u32(); noinc = nondet_u8() & 1; }
-#ifdef KF_C16_CTRL_OVERRIDE     /* known-finding complement: no explicit numbering override on a non-retransmission */
-  custom = 0; noinc = 0;
-#endif
-  uint8_t kind[J], pre34[J], pre43[J];
-  for (int i = 0; i < J; i++) {
-    kind[i] = nondet_u8(); VF_ASSUME(kind[i] < NKIND); pre34[i] = nondet_u8() & 1; pre43[i] = nondet_u8() & 1;
-    uint32_t orig = nondet_u32(); int64_t t52 = nondet_i64(); VF_ASSUME(t52 >= 0 && t52 < (1LL << 62));
-#ifdef NEW_ONLY
-    pre34[i] = 0; pre43[i] = 0;
-#endif
-    if (!pre34[i]) pre43[i] = 0;                 /* PossDupFlag is only ever present on a message that carries its original number */
-#ifdef KF_C16_CTRL_OVERRIDE
-    VF_ASSUME((pre34[i] && (!always || pre43[i])) || kind[i] != K_SEQRESET);
-#endif
-#ifdef KF_C16_ALWAYS_RESEND    /* known-finding complement: no retransmission while always_seqnum_assign is configured */
-    VF_ASSUME(!(always && pre43[i]));
-#endif
-    if (i < j) {
-      world_msg(i, kind[i]);
-      if (pre34[i]) { a_has[i][T34] = 1; a_v34[i] = orig; a_has[i][T52] = 1; a_v52[i] = t52; a_has[i][T49] = 1; a_has[i][T56] = 1; if (pre43[i]) { a_has[i][T43] = 1; a_v43[i] = 1; } }
-      cx_elen[i] = a_elen[i]; for (int b = 0; b < ENC_MAX; b++) cx_enc[i][b] = a_enc[i][b];
-    }
-    cx_kind[i] = kind[i]; cx_pre34[i] = pre34[i]; cx_pre43[i] = pre43[i]; cx_orig[i] = orig;
-  }
-  cx_n = n; cx_r = r; cx_op = op; cx_j = j; cx_custom = custom; cx_noinc = noinc; cx_destroy = destroy; cx_always = always; cx_persist = with_persist;
-
-  uint32_t ok;
-#if OP == 0
-  ok = vf_sb_send_p(&the_sess, MSGP(0), destroy, custom, noinc) & 1;
-#elif OP == 1
-  ok = vf_sb_send_r(&the_sess, MSGP(0), custom, noinc) & 1;
-#else
-  for (int i = 0; i < NMSG; i++) the_arr[i] = MSGP(i);
-  vf_sb_vec_set(&the_vec, the_arr, j, NMSG);
-  ok = vf_sb_send_batch(&the_sess, &the_vec, destroy);
-#endif
+  scenario();
   VF_ASSERT(!__vf_exc_pending, "C16: send does not throw"); __vf_exc_pending = 0;
   VF_ASSERT(op == 2 ? ok == j : ok == 1, "C16: every message of the operation is reported as sent");
   VF_ASSERT(e_n == j, "C16: every message of the operation is encoded exactly once");
